@@ -277,6 +277,10 @@ fn pick_kinds(rng: &mut Rng, allow_sim: bool, plain_bias: u64) -> (Kind, Kind) {
                 (Kind::SimNoSplit, Kind::Slice),
                 (Kind::Slice, Kind::SimNoSplit),
                 (Kind::CropSim, Kind::CropSim),
+                (Kind::YSlice, Kind::YSlice),
+                (Kind::YSlice, Kind::YSlice),
+                (Kind::YCrop, Kind::YCrop),
+                (Kind::YCrop, Kind::YCrop),
             ])
         } else if c < 60 {
             if rng.chance(1, 8) {
@@ -297,7 +301,7 @@ fn pick_single_kind(rng: &mut Rng, allow_sim: bool, dynamic: bool) -> Kind {
     if dynamic {
         *rng.pick(&DST_DYN)
     } else if allow_sim && rng.chance(1, 5) {
-        *rng.pick(&[Kind::Sim, Kind::SimNoSplit, Kind::CropSim])
+        *rng.pick(&[Kind::Sim, Kind::SimNoSplit, Kind::CropSim, Kind::YSlice, Kind::YCrop])
     } else if rng.chance(1, 8) {
         Kind::Crop2
     } else {
@@ -338,7 +342,7 @@ fn mk_img(rng: &mut Rng, w: u32, h: u32, kind: Kind, pt: Pt, is_dst: bool, yield
         content: pick_content(rng, pt),
         content_seed: rng.next_u64() >> 16,
         stride_extra: if kind.is_sim() && rng.chance(2, 3) { rng.range(1, 5) as u32 } else { 0 },
-        yield_rows: kind.is_sim() && yield_rows,
+        yield_rows: kind.is_harness() && yield_rows,
         panic_at: 0,
     }
 }
@@ -667,8 +671,8 @@ fn backend(rng: &mut Rng, k: &Knobs) -> Backend {
 
 /// F4: make one harness container of the op panic at its k-th hand-out
 fn inject_panic(rng: &mut Rng, r: &mut ResizeOp) -> bool {
-    let s = r.src.kind.is_sim();
-    let d = r.dst.kind.is_sim();
+    let s = r.src.kind.is_harness();
+    let d = r.dst.kind.is_harness();
     if !s && !d {
         return false;
     }
